@@ -538,3 +538,100 @@ func sortStrings(s []string) {
 		}
 	}
 }
+
+// ---------------------------------------------------------------------------
+// Programs over packages that ship native circuit files.
+
+// drawBristol draws a tiny two-input, one-output circuit over w-bit values in
+// Bristol format: out[i] = a[i] op b[p(i)], optionally followed by a second
+// layer combining with a[q(i)].
+func drawBristol(t *rapid.T, w int, layers int) string {
+	ops := []string{"XOR", "AND", "OR", "XNOR"}
+	var gates []string
+	perm := rapid.Permutation(seq(w)).Draw(t, "bperm")
+	next := 2 * w
+	if layers == 2 {
+		next = 3 * w // first layer writes 2w..3w-1, outputs are 3w..4w-1
+	}
+	for i := 0; i < w; i++ {
+		op := rapid.SampledFrom(ops).Draw(t, "bop")
+		gates = append(gates, fmt.Sprintf("2 1 %d %d %d %s", i, w+perm[i], 2*w+i, op))
+	}
+	if layers == 2 {
+		perm2 := rapid.Permutation(seq(w)).Draw(t, "bperm2")
+		for i := 0; i < w; i++ {
+			op := rapid.SampledFrom(ops).Draw(t, "bop2")
+			gates = append(gates, fmt.Sprintf("2 1 %d %d %d %s", 2*w+i, perm2[i], next+i, op))
+		}
+	}
+	nwires := next + w
+	if layers == 1 {
+		nwires = 3 * w
+	}
+	return fmt.Sprintf("%d %d\n2 %d %d\n1 %d\n\n%s\n", len(gates), nwires, w, w, w,
+		strings.Join(gates, "\n"))
+}
+
+var circNames = []string{"op.circ", "op.circ", "op.circ", "f.circ"}
+
+// drawNativeProgram draws 2-4 packages that each ship a small circuit file -
+// deliberately under the same file name with different contents - and a
+// function G calling it through native(); a measured main calling some of
+// them and 1-2 further mains (for histories) calling others.
+func drawNativeProgram(t *rapid.T) (string, []string, []File, []string) {
+	w := rapid.SampledFrom([]int{4, 8, 8, 16}).Draw(t, "width")
+	ty := mkType(false, w)
+	npk := rapid.IntRange(2, 4).Draw(t, "npkg")
+	names := rapid.Permutation(pkgNames).Draw(t, "names")[:npk]
+	tags := []string{fmt.Sprintf("native-width=%d", w)}
+	var files []File
+	twoLayers := false
+	for i, name := range names {
+		layers := 1
+		if rapid.IntRange(0, 4).Draw(t, "layers") == 0 {
+			layers = 2
+			twoLayers = true
+		}
+		cname := rapid.SampledFrom(circNames).Draw(t, "circname")
+		files = append(files, File{Path: name + "/" + cname, Text: drawBristol(t, w, layers)})
+		g := &pgen{t: t, ty: ty}
+		var sb strings.Builder
+		fmt.Fprintf(&sb, "package %s\n\n", name)
+		fmt.Fprintf(&sb, "const K%d = %s\n\n", i, g.lit())
+		fmt.Fprintf(&sb, "var g%d %s = %s\n\n", i, ty.name, g.lit())
+		fmt.Fprintf(&sb, "func G(a, b %s) %s {\n\treturn native(%q, a, b)\n}\n\n", ty.name, ty.name, cname)
+		fmt.Fprintf(&sb, "func H(x %s) %s {\n\treturn G(x, g%d) ^ K%d\n}\n", ty.name, ty.name, i, i)
+		files = append(files, File{Path: name + "/" + name + ".mpcl", Text: sb.String()})
+	}
+	if twoLayers {
+		tags = append(tags, "native-gate-counts-differ")
+	}
+	mkMain := func(label string) string {
+		n := rapid.IntRange(1, npk).Draw(t, label+"-nimports")
+		order := rapid.Permutation(seq(npk)).Draw(t, label+"-order")[:n]
+		var sb strings.Builder
+		sb.WriteString("package main\n\nimport (\n")
+		for _, j := range order {
+			fmt.Fprintf(&sb, "\t%q\n", names[j])
+		}
+		sb.WriteString(")\n\n")
+		fmt.Fprintf(&sb, "const M0 = %d\nconst M1 %s = %d\n\n", rapid.IntRange(1, 7).Draw(t, label+"-m0"),
+			ty.name, rapid.IntRange(1, 7).Draw(t, label+"-m1"))
+		fmt.Fprintf(&sb, "func main(a %s, b %s) %s {\n\tr := (a ^ M1)\n", ty.name, ty.name, ty.name)
+		for _, j := range order {
+			if rapid.Bool().Draw(t, label+"-useH") {
+				fmt.Fprintf(&sb, "\tr = (r + %s.H(b))\n", names[j])
+			} else {
+				fmt.Fprintf(&sb, "\tr = (r ^ %s.G(r, b))\n", names[j])
+			}
+		}
+		sb.WriteString("\treturn (r + M0)\n}\n")
+		return sb.String()
+	}
+	main := mkMain("main")
+	var hist []string
+	for i := rapid.IntRange(1, 2).Draw(t, "nhistmains"); i > 0; i-- {
+		hist = append(hist, mkMain(fmt.Sprintf("hist%d", i)))
+	}
+	return main, hist, files, tags
+}
